@@ -1,24 +1,26 @@
-// C12 harness: runs the REAL table::RpkiTable (validate / insert / remove / drop_source / iter)
-// on each case line and prints one canonical observation line.
+// C12 harness (daemon side), included by harness/daemon/rpki.rs: runs the REAL table::RpkiTable held by a
+// REAL TableManager (validate / insert / remove / drop_source / iter), and for `show` the whole daemon path:
+// a global import policy built by PolicyTable (statement `rpki STATE` => reject, NOT the first statement / policy,
+// so that PolicyAssignment::needs_rpki has to be computed over all of them and re-computed when a policy is added),
+// TableManager::insert_route (apply_import behind the needs_rpki gate), TableManager::collect_paths (validation
+// phase) and convert::destination_to_api (rpki_validation_to_api).
 //
 //   case ::= (case LOCALASN (ops OP*))
 //   OP   ::= (ins C A NET ML ASN) | (rem C A NET ML ASN) | (drop C A)
-//          | (reset C A ((NET ML ASN)*))          -- table_manager::rpki_reset = drop_source + inserts
-//          | (val NET PATH) | (iter F)
+//          | (reset C A ((NET ML ASN)*))          -- the REAL TableManager::rpki_reset
+//          | (val NET PATH [POS]) | (iter F) | (show STATE NET PATH [POS])
 //   NET  ::= (4 x<8 hex> LEN) | (6 x<32 hex> LEN)
 //   PATH ::= nopath | (path (T ASN*)*)            -- AS_PATH segments, T = segment type byte
+//   POS  ::= 0..3  number of other attributes placed before AS_PATH (default 1)
 //   C = cache address index (192.0.2.C), A = which Arc<IpAddr> instance of that address
 //
-//   obs  ::= (obs O*)        one O per val / iter op, in order
+//   obs  ::= (obs O*)        one O per val / iter / show op, in order
 //   O    ::= none | (v STATE REASON (m E*) (ua E*) (ul E*)) | (it E*)
+//          | (api none f|t) | (api STATE REASON f|t)      -- what the API shows, and whether the policy filtered
 //   E    ::= (NET C A ML ASN)
+use super::*;
 use std::collections::HashMap;
-use std::net::{IpAddr, Ipv4Addr, Ipv6Addr};
-use std::sync::Arc;
-
-use rustybgp_packet as packet;
-use rustybgp_table as table;
-use verif_pt::sexp::{run_lines, Term};
+use std::net::Ipv6Addr;
 
 struct Ctx {
     arcs: HashMap<(u64, u64), Arc<IpAddr>>,
@@ -97,11 +99,12 @@ fn vrp_of(t: &[Term]) -> Option<(packet::IpNet, u8, u32)> {
 }
 
 enum Op {
+    Show(table::RpkiValidationState, packet::IpNet, Option<Vec<u8>>, usize),
     Ins(u64, u64, packet::IpNet, u8, u32),
     Rem(u64, u64, packet::IpNet, u8, u32),
     Drop(u64, u64),
     Reset(u64, u64, Vec<(packet::IpNet, u8, u32)>),
-    Val(packet::IpNet, Option<Vec<u8>>),
+    Val(packet::IpNet, Option<Vec<u8>>, usize),
     Iter(u64),
 }
 
@@ -130,6 +133,26 @@ fn path_of(t: &Term) -> Option<Option<Vec<u8>>> {
     Some(Some(out))
 }
 
+fn pos_of(t: &Term) -> Option<usize> {
+    let v = t.as_u64()?;
+    if v <= 3 { Some(v as usize) } else { None }
+}
+
+/// attribute list with `pos` other attributes before AS_PATH and the rest after it
+fn attrs_of(path: Option<Vec<u8>>, pos: usize) -> Arc<Vec<packet::Attribute>> {
+    let others = vec![
+        packet::Attribute::new_with_value(packet::Attribute::ORIGIN, 0).unwrap(),
+        packet::Attribute::new_with_value(packet::Attribute::MULTI_EXIT_DESC, 7).unwrap(),
+        packet::Attribute::new_with_value(packet::Attribute::LOCAL_PREF, 100).unwrap(),
+    ];
+    let mut attrs: Vec<packet::Attribute> = others[..pos].to_vec();
+    if let Some(p) = path {
+        attrs.push(packet::Attribute::new_with_bin(packet::Attribute::AS_PATH, p).unwrap());
+    }
+    attrs.extend_from_slice(&others[pos..]);
+    Arc::new(attrs)
+}
+
 fn cid(t: &Term) -> Option<u64> {
     let v = t.as_u64()?;
     if v > 250 { None } else { Some(v) }
@@ -153,7 +176,18 @@ fn op_of(t: &Term) -> Option<Op> {
             }
             Some(Op::Reset(cid(&a[0])?, cid(&a[1])?, v))
         }
-        "val" if a.len() == 2 => Some(Op::Val(net_of(&a[0])?, path_of(&a[1])?)),
+        "val" if a.len() == 2 => Some(Op::Val(net_of(&a[0])?, path_of(&a[1])?, 1)),
+        "val" if a.len() == 3 => Some(Op::Val(net_of(&a[0])?, path_of(&a[1])?, pos_of(&a[2])?)),
+        "show" if a.len() == 3 || a.len() == 4 => {
+            let st = match a[0].as_atom()? {
+                "valid" => table::RpkiValidationState::Valid,
+                "invalid" => table::RpkiValidationState::Invalid,
+                "notfound" => table::RpkiValidationState::NotFound,
+                _ => return None,
+            };
+            let pos = if a.len() == 4 { pos_of(&a[3])? } else { 1 };
+            Some(Op::Show(st, net_of(&a[1])?, path_of(&a[2])?, pos))
+        }
         "iter" if a.len() == 1 => {
             let f = a[0].as_u64()?;
             if f == 4 || f == 6 { Some(Op::Iter(f)) } else { None }
@@ -167,7 +201,7 @@ fn entry(ctx: &Ctx, n: &packet::IpNet, r: &table::Roa) -> Term {
     Term::list(vec![net_term(n), Term::nat(c), Term::nat(a), Term::nat(r.max_length), Term::nat(r.as_number)])
 }
 
-fn run_case(line: &str) -> String {
+pub(super) fn run_case(line: &str) -> String {
     let t = match Term::parse(line) {
         Some(t) => t,
         None => return "(bad-case)".into(),
@@ -200,36 +234,34 @@ fn run_case(line: &str) -> String {
         table::PeerRole::Ebgp,
     ));
     let mut ctx = Ctx { arcs: HashMap::new() };
-    let mut tbl = table::RpkiTable::new();
+    let tables: TableHandle = Arc::new(TableManager::new(1));
     let mut obs = vec![Term::atom("obs")];
     for op in ops {
         match op {
             Op::Ins(c, k, net, ml, asn) => {
                 let s = ctx.arc(c, k);
-                tbl.insert(net, Arc::new(table::Roa::new(ml, asn, s)));
+                tables.rpki_insert(vec![(net, Arc::new(table::Roa::new(ml, asn, s)))]);
             }
             Op::Rem(c, k, net, ml, asn) => {
                 let s = ctx.arc(c, k);
-                tbl.remove(net, &table::Roa::new(ml, asn, s));
+                tables.rpki_withdraw(vec![(net, Arc::new(table::Roa::new(ml, asn, s)))]);
             }
             Op::Drop(c, k) => {
                 let s = ctx.arc(c, k);
-                tbl.drop_source(s);
+                tables.rpki_drop_all(s);
             }
             Op::Reset(c, k, v) => {
-                // transcription of TableManager::rpki_reset
                 let s = ctx.arc(c, k);
-                tbl.drop_source(s.clone());
-                for (net, ml, asn) in v {
-                    tbl.insert(net, Arc::new(table::Roa::new(ml, asn, s.clone())));
-                }
+                let roas = v
+                    .into_iter()
+                    .map(|(net, ml, asn)| (net, Arc::new(table::Roa::new(ml, asn, s.clone()))))
+                    .collect();
+                tables.rpki_reset(s, roas);
             }
-            Op::Val(net, path) => {
-                let mut attrs = vec![packet::Attribute::new_with_value(packet::Attribute::ORIGIN, 0).unwrap()];
-                if let Some(p) = path {
-                    attrs.push(packet::Attribute::new_with_bin(packet::Attribute::AS_PATH, p).unwrap());
-                }
-                let attrs = Arc::new(attrs);
+            Op::Show(st, net, path, pos) => obs.push(show(&tables, &source, st, &net, attrs_of(path, pos))),
+            Op::Val(net, path, pos) => {
+                let attrs = attrs_of(path, pos);
+                let tbl = tables.rpki.read().unwrap();
                 match tbl.validate(&source, &nlri_of(&net), &attrs) {
                     None => obs.push(Term::atom("none")),
                     Some(v) => {
@@ -261,6 +293,7 @@ fn run_case(line: &str) -> String {
             }
             Op::Iter(f) => {
                 let fam = if f == 4 { packet::Family::IPV4 } else { packet::Family::IPV6 };
+                let tbl = tables.rpki.read().unwrap();
                 obs.push(Term::tag("it", tbl.iter(fam).map(|(n, r)| entry(&ctx, &n, r)).collect()));
             }
         }
@@ -268,18 +301,83 @@ fn run_case(line: &str) -> String {
     Term::list(obs).to_string()
 }
 
-fn main() {
-    let args: Vec<String> = std::env::args().collect();
-    if args.len() == 4 && args[1] == "run" {
-        std::panic::set_hook(Box::new(|_| {}));
-        run_lines(&args[2], &args[3], |line| {
-            match std::panic::catch_unwind(|| run_case(line)) {
-                Ok(s) => s,
-                Err(_) => "(panic)".into(),
-            }
-        });
-    } else {
-        eprintln!("usage: c12 run <in> <out>");
-        std::process::exit(2);
+
+/// The daemon path from a received route to what the API shows and what the import policy decided.
+fn show(
+    tables: &TableHandle,
+    source: &Arc<table::Source>,
+    st: table::RpkiValidationState,
+    net: &packet::IpNet,
+    attrs: Arc<Vec<packet::Attribute>>,
+) -> Term {
+    use table::{Actions, ConditionConfig, Disposition, PolicyDirection, PolicyTable};
+    let build = || -> Result<Arc<table::PolicyAssignment>, table::TableError> {
+        let mut pt = PolicyTable::new();
+        pt.add_statement("s0", vec![ConditionConfig::LocalPrefEq(4242)], None, Actions::default())?;
+        pt.add_statement("s1", vec![ConditionConfig::MedEq(4242)], None, Actions::default())?;
+        pt.add_statement("s2", vec![ConditionConfig::Rpki(st)], Some(Disposition::Reject), Actions::default())?;
+        pt.add_policy("p0", vec!["s0".to_string()])?;
+        pt.add_policy("p1", vec!["s1".to_string(), "s2".to_string()])?;
+        pt.add_assignment("global", PolicyDirection::Import, Disposition::Accept, vec!["p0".to_string()])?;
+        let (_, a) = pt.add_assignment("global", PolicyDirection::Import, Disposition::Accept, vec!["p1".to_string()])?;
+        Ok(a)
+    };
+    let Ok(assignment) = build() else { return Term::atom("policy-build-failed") };
+    tables.import_policy.store(Some(assignment));
+    let (family, nexthop) = match net {
+        packet::IpNet::V4(_) => (packet::Family::IPV4, packet::bgp::Nexthop::V4(Ipv4Addr::new(10, 0, 0, 1))),
+        packet::IpNet::V6(_) => (
+            packet::Family::IPV6,
+            packet::bgp::Nexthop::V6(Ipv6Addr::new(0x2001, 0xdb8, 0, 0, 0, 0, 0, 1)),
+        ),
+    };
+    let nlri = nlri_of(net);
+    // a second path of the same destination (add-path id 1, a one-hop AS_PATH with another origin): the path
+    // under observation (id 2) is then not the only and usually not the first one of the destination
+    let decoy = Arc::new(vec![
+        packet::Attribute::new_with_value(packet::Attribute::ORIGIN, 0).unwrap(),
+        packet::Attribute::new_with_bin(packet::Attribute::AS_PATH, vec![2, 1, 0, 0, 0xfd, 0xe7]).unwrap(),
+    ]);
+    tables.insert_route(
+        source.clone(),
+        family,
+        packet::PathNlri { path_id: 1, nlri: nlri.clone() },
+        Some(nexthop),
+        decoy,
+        None,
+        0,
+    );
+    tables.insert_route(
+        source.clone(),
+        family,
+        packet::PathNlri { path_id: 2, nlri: nlri.clone() },
+        Some(nexthop),
+        attrs,
+        None,
+        0,
+    );
+    let dests = tables.collect_paths(table::TableQuery::AdjIn(source.remote_addr), family, vec![], true);
+    let Some(d) = dests.into_iter().find(|d| d.net == nlri) else { return Term::atom("route-not-listed") };
+    let flags = crate::convert::PathBinaryFlags { nlri_binary: false, attr_binary: false, only_binary: false };
+    let api_d = crate::convert::destination_to_api(d, family, &flags);
+    let Some(p) = api_d.paths.iter().find(|p| p.identifier == 2) else { return Term::atom("no-path") };
+    let filtered = Term::boolean(p.filtered);
+    match &p.validation {
+        None => Term::tag("api", vec![Term::atom("none"), filtered]),
+        Some(v) => {
+            let stt = match api::ValidationState::try_from(v.state) {
+                Ok(api::ValidationState::Valid) => "valid",
+                Ok(api::ValidationState::Invalid) => "invalid",
+                Ok(api::ValidationState::NotFound) => "notfound",
+                _ => "other",
+            };
+            let rs = match api::validation::Reason::try_from(v.reason) {
+                Ok(api::validation::Reason::None) => "none",
+                Ok(api::validation::Reason::Asn) => "asn",
+                Ok(api::validation::Reason::Length) => "length",
+                _ => "other",
+            };
+            Term::tag("api", vec![Term::atom(stt), Term::atom(rs), filtered])
+        }
     }
 }
